@@ -67,6 +67,7 @@ type Contract struct {
 	File       string
 	Line       int
 	Covers     []Clause // cover: must be satisfiable at some return
+	Names      []Clause // names: verdict-naming equalities assumed by callers only
 	Afters     []AfterClause
 	Uses       []string // lemma names assumed at entry
 	Ghost      bool
@@ -290,6 +291,12 @@ func (db *SpecDB) LoadContractFile(path, defaultPkg string) error {
 			if m == nil {
 				return fail(l.n, "bad ufun %q", l.s)
 			}
+			if prev := db.UFuns[m[1]]; prev != nil && (strings.Join(prev.Args, ",") != strings.Join(splitNames(m[2]), ",") || prev.Ret != strings.TrimSpace(m[3])) {
+				return fail(l.n, "spec function %s is declared twice with different signatures (names are global)", m[1])
+			}
+			if _, isDef := db.Defines[m[1]]; isDef {
+				return fail(l.n, "spec function %s is declared both as ufun and as define (names are global)", m[1])
+			}
 			db.UFuns[m[1]] = &UFun{Name: m[1], Args: splitNames(m[2]), Ret: strings.TrimSpace(m[3]), PkgPath: pkg}
 			db.Order = append(db.Order, m[1])
 			cur = nil
@@ -314,6 +321,12 @@ func (db *SpecDB) LoadContractFile(path, defaultPkg string) error {
 				return fail(l.n, "%v", err)
 			}
 			d.Body = e
+			if _, isU := db.UFuns[d.Name]; isU {
+				return fail(l.n, "spec function %s is declared both as ufun and as define (names are global)", d.Name)
+			}
+			if prev := db.Defines[d.Name]; prev != nil && prev.Src != d.Src {
+				return fail(l.n, "spec function %s is defined twice with different bodies (names are global)", d.Name)
+			}
 			db.Defines[d.Name] = d
 			db.Order = append(db.Order, d.Name)
 			cur = nil
@@ -387,12 +400,17 @@ func (db *SpecDB) LoadContractFile(path, defaultPkg string) error {
 					cl.Label = strconv.Itoa(len(cur.Afters) + 1)
 				}
 				cur.Afters = append(cur.Afters, AfterClause{Callee: at[0], K: k, Clause: cl})
-			case "requires", "ensures", "cover":
+			case "requires", "ensures", "cover", "names":
 				cl, err := parseClause(l.n, rest, true)
 				if err != nil {
 					return err
 				}
 				switch kw {
+				case "names":
+					// names <expr>: gives the function's verdict a name for callers (an uninterpreted predicate
+					// of the inputs): assumed at call sites, not an obligation of the function itself. The
+					// assumption recorded is that the function is deterministic in the inputs it names.
+					cur.Names = append(cur.Names, cl)
 				case "requires":
 					cur.Requires = append(cur.Requires, cl)
 				case "ensures":
